@@ -164,11 +164,27 @@ def gen_history(rng):
     if solver == 'chol2' and dims['l'] < n + 1:
         dims['l'] = n + 1 + rng.randint(0, 2)
     p = rng.randint(0, max(0, min(2, n - 1)))
+    data_class = 'regular'
+    if solver == 'chol2' and n >= 2 and rng.random() < 0.08:
+        # F10 class: S = G'W^-2G singular by rank only (ml < n, the equalities supply the rest); low weight
+        data_class = 'rank_singular'
+        ml = rng.randint(1, n - 1)
+        dims = {'l': ml, 'q': [], 's': []}
+        p = n - ml
+        mnl = 0
+    if solver == 'chol2' and n >= 2 and data_class == 'regular' and rng.random() < 0.05:
+        # F10b class: ml >= n but two columns of G are proportional; an equality constraint restores rank([G;A]) = n
+        data_class = 'dependent_columns'
+        p = max(p, 1)
+        mnl = 0
     cd = CR.cdim(dims)
     zero_col = None
-    use_H = solver != 'qr' and (mnl > 0 or rng.random() < 0.5)
+    use_H = solver != 'qr' and (mnl > 0 or rng.random() < 0.5) and data_class == 'regular'
     G = gen.sym_columns(rng, dims, n, rng.choice([1.0, 1.0, 0.7]))
     A = gen.rmat(rng, p, n)
+    if data_class == 'dependent_columns':
+        for i in range(cd):
+            G[cd + i] = -2.0 * G[i]
     if use_H and rng.random() < 0.35 and solver in ('chol2', 'ldl', 'ldl2'):
         # column j of [G; A] (and later of Df) is exactly zero: the system is singular unless H[j,j] > 0
         zero_col = rng.randrange(n)
@@ -179,7 +195,7 @@ def gen_history(rng):
     for j in range(n):
         if j != zero_col and not any(G[j * cd:(j + 1) * cd]):
             G[j * cd + rng.randrange(cd)] = 1.0
-    data = {'solver': solver, 'dims': dims, 'mnl': mnl, 'n': n, 'p': p, 'zero_col': zero_col, 'use_H': use_H,
+    data = {'solver': solver, 'dims': dims, 'mnl': mnl, 'n': n, 'p': p, 'zero_col': zero_col, 'use_H': use_H, 'data_class': data_class,
             'G': {'m': cd, 'n': n, 'v': G, 'sparse': bool(rng.random() < 0.4)},
             'A': {'m': p, 'n': n, 'v': A, 'sparse': bool(rng.random() < 0.35)},
             'H_sparse': bool(rng.random() < 0.3), 'Df_sparse': bool(rng.random() < 0.3)}
@@ -282,9 +298,10 @@ def run_history(case, journal):
         stats[k] = stats.get(k, 0) + c
 
     def V(oracle, detail, **sig):
-        s = {'oracle': oracle, 'solver': data['solver'], 'zero_col': data['zero_col'] is not None}
+        s = {'oracle': oracle, 'solver': data['solver'], 'zero_col': data['zero_col'] is not None,
+             'data_class': data.get('data_class', 'regular')}
         s.update(sig)
-        return {'oracle': oracle, 'klass': '%s:%s' % (oracle, data['solver']), 'sig': s, 'detail': detail}
+        return {'oracle': oracle, 'klass': '%s:%s:%s' % (oracle, data['solver'], data.get('data_class', 'regular')), 'sig': s, 'detail': detail}
 
     G, A = gen.M(data['G']), gen.M(data['A'])
     data = dict(data, Gd=(data['G']['m'], n, data['G']['v']), Ad=(p, n, data['A']['v']))
